@@ -100,35 +100,48 @@ type Job struct {
 	Run  int      `json:"run"`
 	Tape []uint32 `json:"tape"`
 	Full bool     `json:"full"`
+	Ref  bool     `json:"ref,omitempty"`
+	Pos  int      `json:"pos,omitempty"`
+	Kind string   `json:"kind,omitempty"`
+}
+
+// fault kinds enumerated at every in-sync interaction of a reference run
+var enumKinds = map[string]map[byte][]string{
+	"C09": {'A': {"crash-before", "crash-after", "404", "409", "410", "422", "500", "neterr", "lost"}, 'H': {"crash"}},
+	"C12": {'A': {"404", "409", "exists", "410", "422", "500", "neterr", "lost"}, 'H': {"500", "429", "refused", "stall", "garbage"}},
 }
 
 type RunLine struct {
-	Start     *int              `json:"start,omitempty"`
-	Recycle   bool              `json:"recycle,omitempty"`
-	Fatal     string            `json:"fatal,omitempty"`
-	Run       int               `json:"run"`
-	Job       int               `json:"job"`
-	Steps     int               `json:"steps"`
-	Incs      int               `json:"incs"`
-	Sim       float64           `json:"sim_s"`
-	LogHash   string            `json:"log"`
-	StateHash string            `json:"state"`
-	Writes    int               `json:"writes"`
-	Hooks     int               `json:"hooks"`
-	Faults    map[string]int    `json:"faults,omitempty"`
-	Probes    map[string]int    `json:"probes,omitempty"`
-	Known     map[string]int    `json:"known,omitempty"`
-	Violation string            `json:"violation,omitempty"`
-	Prop      string            `json:"prop,omitempty"`
-	Class     string            `json:"class,omitempty"`
-	VStep     int               `json:"vstep,omitempty"`
-	Sig       map[string]string `json:"sig,omitempty"`
-	Budget    string            `json:"budget,omitempty"`
-	Cfg       map[string]string `json:"cfg,omitempty"`
-	TapeLen   int               `json:"tape_len"`
-	Tape      []uint32          `json:"tape,omitempty"`
-	Log       []string          `json:"eventlog,omitempty"`
-	Sample    []string          `json:"sample,omitempty"`
+	Start        *int              `json:"start,omitempty"`
+	Recycle      bool              `json:"recycle,omitempty"`
+	Fatal        string            `json:"fatal,omitempty"`
+	Run          int               `json:"run"`
+	Job          int               `json:"job"`
+	Steps        int               `json:"steps"`
+	Incs         int               `json:"incs"`
+	Sim          float64           `json:"sim_s"`
+	LogHash      string            `json:"log"`
+	StateHash    string            `json:"state"`
+	Writes       int               `json:"writes"`
+	Hooks        int               `json:"hooks"`
+	Faults       map[string]int    `json:"faults,omitempty"`
+	Probes       map[string]int    `json:"probes,omitempty"`
+	Known        map[string]int    `json:"known,omitempty"`
+	Interactions string            `json:"interactions,omitempty"`
+	Pos          int               `json:"pos,omitempty"`
+	Kind         string            `json:"kind,omitempty"`
+	NotFired     bool              `json:"not_fired,omitempty"`
+	Violation    string            `json:"violation,omitempty"`
+	Prop         string            `json:"prop,omitempty"`
+	Class        string            `json:"class,omitempty"`
+	VStep        int               `json:"vstep,omitempty"`
+	Sig          map[string]string `json:"sig,omitempty"`
+	Budget       string            `json:"budget,omitempty"`
+	Cfg          map[string]string `json:"cfg,omitempty"`
+	TapeLen      int               `json:"tape_len"`
+	Tape         []uint32          `json:"tape,omitempty"`
+	Log          []string          `json:"eventlog,omitempty"`
+	Sample       []string          `json:"sample,omitempty"`
 }
 
 type workerResult struct {
@@ -279,20 +292,22 @@ func matchFinding(fs []Finding, l *RunLine) *Finding {
 // replay files
 
 type Replay struct {
-	Property string            `json:"property"`
-	Class    string            `json:"class"`
-	Step     int               `json:"step"`
-	Detail   string            `json:"violation"`
-	Seed     uint64            `json:"seed"`
-	Run      int               `json:"run"`
-	Tape     []uint32          `json:"tape"`
-	OrigLen  int               `json:"original_tape_len"`
-	LogHash  string            `json:"log_hash"`
-	Cfg      map[string]string `json:"cfg"`
-	Sig      map[string]string `json:"signature"`
-	Log      []string          `json:"event_log"`
-	RepoTree string            `json:"repo_tree"`
-	Crash    string            `json:"process_crash,omitempty"`
+	Property  string            `json:"property"`
+	Class     string            `json:"class"`
+	Step      int               `json:"step"`
+	Detail    string            `json:"violation"`
+	Seed      uint64            `json:"seed"`
+	Run       int               `json:"run"`
+	FaultPos  int               `json:"fault_position,omitempty"`
+	FaultKind string            `json:"fault_kind,omitempty"`
+	Tape      []uint32          `json:"tape"`
+	OrigLen   int               `json:"original_tape_len"`
+	LogHash   string            `json:"log_hash"`
+	Cfg       map[string]string `json:"cfg"`
+	Sig       map[string]string `json:"signature"`
+	Log       []string          `json:"event_log"`
+	RepoTree  string            `json:"repo_tree"`
+	Crash     string            `json:"process_crash,omitempty"`
 }
 
 func repoTree() string {
@@ -410,76 +425,115 @@ func cmdRun(args []string) {
 	if v := os.Getenv("VERIF_PAR"); v != "" {
 		par, _ = strconv.Atoi(v)
 	}
-	chunk := 20
-	type chunkT struct{ from, to int }
-	var chunks []chunkT
-	for f := 0; f < tc.runs; f += chunk {
-		chunks = append(chunks, chunkT{f, min(f+chunk, tc.runs)})
-	}
 	var mu sync.Mutex
 	var lines []RunLine
 	var crashes []crashRec
 	var fatal string
-	next := 0
-	var wg sync.WaitGroup
-	for p := 0; p < par; p++ {
-		wg.Add(1)
-		go func() {
-			defer wg.Done()
-			for {
-				mu.Lock()
-				if next >= len(chunks) || fatal != "" {
-					mu.Unlock()
-					return
-				}
-				c := chunks[next]
-				next++
-				mu.Unlock()
-				var jobs []Job
-				for r := c.from; r < c.to; r++ {
-					jobs = append(jobs, Job{ID: r, Seed: seed, Run: r})
-				}
-				for len(jobs) > 0 {
-					res := runWorker(bin, *prop, jobs, 1, 3, 10*time.Minute)
+	runJobs := func(all []Job, chunk int) {
+		var chunks [][]Job
+		for f := 0; f < len(all); f += chunk {
+			chunks = append(chunks, all[f:min(f+chunk, len(all))])
+		}
+		next := 0
+		var wg sync.WaitGroup
+		for p := 0; p < par; p++ {
+			wg.Add(1)
+			go func() {
+				defer wg.Done()
+				for {
 					mu.Lock()
-					lines = append(lines, res.lines...)
-					if res.fatal != "" {
-						fatal = res.fatal
+					if next >= len(chunks) || fatal != "" {
+						mu.Unlock()
+						return
 					}
+					jobs := append([]Job(nil), chunks[next]...)
+					next++
 					mu.Unlock()
-					if !res.died {
-						break
-					}
-					// the process died: attribute to the in-flight job, continue after it
-					done := map[int]bool{}
-					for _, l := range res.lines {
-						done[l.Job] = true
-					}
-					var rest []Job
-					var inflight *Job
-					for i := range jobs {
-						if jobs[i].ID == res.inflight {
-							inflight = &jobs[i]
-						} else if !done[jobs[i].ID] {
-							rest = append(rest, jobs[i])
+					for len(jobs) > 0 {
+						res := runWorker(bin, *prop, jobs, 1, 3, 10*time.Minute)
+						mu.Lock()
+						lines = append(lines, res.lines...)
+						if res.fatal != "" {
+							fatal = res.fatal
 						}
+						mu.Unlock()
+						if !res.died {
+							break
+						}
+						// the process died: attribute to the in-flight job, continue after it
+						done := map[int]bool{}
+						for _, l := range res.lines {
+							done[l.Job] = true
+						}
+						var rest []Job
+						var inflight *Job
+						for i := range jobs {
+							if jobs[i].ID == res.inflight {
+								inflight = &jobs[i]
+							} else if !done[jobs[i].ID] {
+								rest = append(rest, jobs[i])
+							}
+						}
+						mu.Lock()
+						if inflight != nil {
+							crashes = append(crashes, crashRec{*inflight, res.stderr})
+						} else if res.fatal == "" {
+							fatal = "worker died with no job in flight:\n" + res.stderr
+						}
+						mu.Unlock()
+						if inflight == nil {
+							break
+						}
+						jobs = rest
 					}
-					mu.Lock()
-					if inflight != nil {
-						crashes = append(crashes, crashRec{*inflight, res.stderr})
-					} else if res.fatal == "" {
-						fatal = "worker died with no job in flight:\n" + res.stderr
-					}
-					mu.Unlock()
-					if inflight == nil {
-						break
-					}
-					jobs = rest
+				}
+			}()
+		}
+		wg.Wait()
+	}
+	kinds := enumKinds[*prop]
+	enumStats := map[string]int{}
+	if kinds == nil {
+		var all []Job
+		for r := 0; r < tc.runs; r++ {
+			all = append(all, Job{ID: r, Seed: seed, Run: r})
+		}
+		runJobs(all, 20)
+	} else {
+		// fault enumeration: reference runs first, then one run per (position, kind)
+		nref := max(2, tc.runs/25)
+		budget := tc.runs * 5
+		var refs []Job
+		for r := 0; r < nref; r++ {
+			refs = append(refs, Job{ID: r, Seed: seed, Run: r, Ref: true})
+		}
+		runJobs(refs, 2)
+		sort.Slice(lines, func(i, j int) bool { return lines[i].Job < lines[j].Job })
+		var variants []Job
+		id := nref
+		for _, l := range lines {
+			if l.Violation != "" || l.Interactions == "" {
+				continue
+			}
+			var vs []Job
+			for pos := 0; pos < len(l.Interactions); pos++ {
+				for _, k := range kinds[l.Interactions[pos]] {
+					vs = append(vs, Job{ID: id, Seed: seed, Run: l.Run, Pos: pos, Kind: k})
+					id++
 				}
 			}
-		}()
+			if len(variants)+len(vs) > budget {
+				enumStats["scenarios_not_enumerated_for_budget"]++
+				continue
+			}
+			variants = append(variants, vs...)
+			enumStats["scenarios_enumerated_completely"]++
+			enumStats["positions"] += len(l.Interactions)
+		}
+		enumStats["reference_runs"] = nref
+		enumStats["single_fault_variants"] = len(variants)
+		runJobs(variants, 12)
 	}
-	wg.Wait()
 	if fatal != "" {
 		die2("harness failure: %s", fatal)
 	}
@@ -553,7 +607,7 @@ func cmdRun(args []string) {
 			continue
 		}
 		// confirm: same seed/run in a fresh process must reproduce class, step and log hash
-		conf := runWorker(bin, *prop, []Job{{ID: 0, Seed: seed, Run: l.Run, Full: true}}, 1, 0, 5*time.Minute)
+		conf := runWorker(bin, *prop, []Job{{ID: 0, Seed: seed, Run: l.Run, Full: true, Pos: l.Pos, Kind: l.Kind, Ref: l.Interactions != "" && l.Kind == ""}}, 1, 0, 5*time.Minute)
 		if conf.died || len(conf.lines) != 1 {
 			die2("harness failure: replay of run %d died\n%s", l.Run, conf.stderr)
 		}
@@ -566,11 +620,15 @@ func cmdRun(args []string) {
 		bestTape := c.Tape
 		if remaining := tc.minimise; remaining > 0 && minimised < 6 {
 			bestTape, best = minimise(bin, *prop, seed, l.Run, c, remaining)
+			best.Pos, best.Kind = l.Pos, l.Kind
 			minimised++
 		}
-		rp := Replay{Property: l.Prop, Class: best.Class, Step: best.VStep, Detail: best.Violation, Seed: seed, Run: l.Run,
+		rp := Replay{Property: l.Prop, Class: best.Class, Step: best.VStep, Detail: best.Violation, Seed: seed, Run: l.Run, FaultPos: l.Pos, FaultKind: l.Kind,
 			Tape: bestTape, OrigLen: len(c.Tape), LogHash: best.LogHash, Cfg: best.Cfg, Sig: best.Sig, Log: best.Log, RepoTree: tree}
 		path := filepath.Join(verifDir, "replays", fmt.Sprintf("%s-%d-%d.json", *prop, seed, l.Run))
+		if l.Kind != "" {
+			path = filepath.Join(verifDir, "replays", fmt.Sprintf("%s-%d-%d-%s@%d.json", *prop, seed, l.Run, l.Kind, l.Pos))
+		}
 		b, _ := json.MarshalIndent(rp, "", " ")
 		os.MkdirAll(filepath.Dir(path), 0o755)
 		os.WriteFile(path, b, 0o644)
@@ -579,7 +637,7 @@ func cmdRun(args []string) {
 		newViol++
 	}
 
-	writeEvidence(*prop, *tier, seed, lines, tc, start, buildS, memo, knownSeen, newViol, confirmedCrashes, budgetRuns, par)
+	writeEvidence(*prop, *tier, seed, lines, tc, start, buildS, memo, knownSeen, newViol, confirmedCrashes, budgetRuns, par, enumStats)
 
 	var known []string
 	for k, n := range knownSeen {
@@ -620,7 +678,7 @@ func minimise(bin, prop string, seed uint64, run int, orig RunLine, budget time.
 		// run candidates in parallel batches; return the index of the first that reproduces
 		var jobs []Job
 		for i, c := range cands {
-			jobs = append(jobs, Job{ID: i, Seed: seed, Run: run, Tape: c, Full: true})
+			jobs = append(jobs, Job{ID: i, Seed: seed, Run: run, Tape: c, Full: true, Pos: orig.Pos, Kind: orig.Kind})
 		}
 		type r struct {
 			i int
@@ -737,7 +795,7 @@ var realStub = map[string][]string{
 	},
 }
 
-func writeEvidence(prop, tier string, seed uint64, lines []RunLine, tc tierCfg, start time.Time, buildS float64, memo string, known map[string]int, newViol, crashes, budgetRuns, par int) {
+func writeEvidence(prop, tier string, seed uint64, lines []RunLine, tc tierCfg, start time.Time, buildS float64, memo string, known map[string]int, newViol, crashes, budgetRuns, par int, enumStats map[string]int) {
 	distinctLogs := map[string]bool{}
 	nontrivial := map[string]bool{}
 	states := map[string]bool{}
@@ -801,6 +859,7 @@ func writeEvidence(prop, tier string, seed uint64, lines []RunLine, tc tierCfg, 
 			"components":              realStub,
 			"ssa_memo_reset":          memo,
 			"build_seconds":           buildS,
+			"fault_enumeration":       enumStats,
 		},
 		"assumptions": []string{
 			"the in-process API server model follows the rules in DESIGN.md §3",
@@ -839,7 +898,7 @@ func cmdReplay(args []string) {
 	}
 	bin, _ := build("replay-"+rp.Property, false)
 	defer os.Remove(bin)
-	job := Job{ID: 0, Seed: rp.Seed, Run: rp.Run, Tape: rp.Tape, Full: true}
+	job := Job{ID: 0, Seed: rp.Seed, Run: rp.Run, Tape: rp.Tape, Full: true, Pos: rp.FaultPos, Kind: rp.FaultKind}
 	if rp.Class == "process-crash" {
 		job.Tape = nil
 	}
